@@ -18,14 +18,17 @@ def _sz(s):
 @template("s:reshape", "shape", weight=2)
 def _t_reshape(c):
     s = c.shape(0, 4)
+    if sum(1 for d in s if d > 1) <= 1 and s:
+        # vectors, rows and columns (C- and Fortran-contiguous at once) long enough to be reshaped to two non-unit axes
+        s = tuple(d * 2 if d > 1 else d for d in s) if any(d > 1 for d in s) else s[:-1] + (4,)
     n = _sz(s)
-    facs = [d for d in range(1, n + 1) if n % d == 0]
+    facs = [d for d in range(2, n) if n % d == 0] or [1]  # proper factors where there are any
     a = c.choice(facs)
     cands = [(n,), (a, n // a), (n // a, a), (-1,), (a, -1), (1, n), (n, 1, 1), (-1, a)]
     if n == 1:
         cands.append(())
     new = c.choice(cands)
-    order = c.choice([None, "C", "F", "A"])
+    order = c.choice([None, "C", "F", "A", "a", "f"])
     form = c.int(0, 3)  # 0 func, 1 func order kw, 2 method tuple, 3 method star
     if form == 3 and len(new) == 0:
         form = 2
@@ -47,7 +50,7 @@ def _t_reshape(c):
 @template("s:ravel", "shape")
 def _t_ravel(c):
     s = c.shape(0, 4)
-    order = c.choice([None, "C", "F", "A", "K"])
+    order = c.choice([None, "C", "F", "A", "K", "a", "k", "f"])
     form = c.int(0, 2)
     if form == 0 or len(s) == 0:
         fn = (lambda ns, x: ns.ravel(x, order=order)) if order else (lambda ns, x: ns.ravel(x))
@@ -325,17 +328,23 @@ def _t_pad(c):
         w = [[c.int(0, 2), c.int(0, 2)] for _ in s]  # lists instead of tuples
     else:
         w = onp.array([[c.int(0, 2), c.int(0, 2)] for _ in s])  # an integer array
-    mode = "constant" if not c.chance(1, 6) else c.choice(["edge", "reflect", "wrap"])
+    mode = "constant" if not c.chance(1, 4) else c.choice(["edge", "reflect", "wrap", "symmetric", "linear_ramp", "mean", "maximum", "minimum", "median"])
     kw = {}
     if mode == "constant" and c.chance(1, 3):
         kw["constant_values"] = c.choice([0.7, (0.4, -1.1), 0])
+    if mode in ("reflect", "symmetric") and c.bool():
+        kw["reflect_type"] = "odd"
+    if mode == "linear_ramp" and c.bool():
+        kw["end_values"] = c.choice([0.7, (0.4, -1.1)])
+    if mode in ("mean", "maximum", "minimum", "median") and c.bool():
+        kw["stat_length"] = c.int(1, 2)
     form = c.int(0, 2)
     if form == 0:
         fn = lambda ns, x: ns.pad(x, w, mode, **kw)
     elif form == 1:
         fn = lambda ns, x: ns.pad(x, w, mode=mode, **kw)
     else:
-        fn = (lambda ns, x: ns.pad(x, w, **kw)) if mode == "constant" else (lambda ns, x: ns.pad(x, pad_width=w, mode=mode))
+        fn = (lambda ns, x: ns.pad(x, w, **kw)) if mode == "constant" else (lambda ns, x: ns.pad(x, pad_width=w, mode=mode, **kw))
     return Call("s:pad", fn, [s], desc=["pad", list(s), w.tolist() if isinstance(w, onp.ndarray) else w, mode, kw, form],
                 feats={"fn": "pad", "wkind": k, "mode": mode, "constant_values": "constant_values" in kw, "form": form})
 
@@ -564,11 +573,26 @@ def _t_diff(c):
     nd = len(s)
     ax = c.axis(nd)
     n = c.int(0, 3)
-    form = c.int(0, 2)
+    form = c.int(0, 3)
     if form == 0:
         fn = lambda ns, x: ns.diff(x, n, ax)
     elif form == 1:
         fn = lambda ns, x: ns.diff(x, n=n, axis=ax)
+    elif form == 3:
+        # constant boundary values joined on before differencing (affine in x: the constants must not reach the derivative)
+        kw = {}
+        edge = list(s)
+        edge[ax] = 1
+        for name_ in ("prepend", "append"):
+            k_ = c.int(0, 2)
+            if k_ == 1:
+                kw[name_] = 0.7
+            elif k_ == 2:
+                kw[name_] = onp.full(edge, -1.3)
+        if not kw:
+            kw["prepend"] = 0.7
+        n = max(n, 1)
+        fn = lambda ns, x: ns.diff(x, n=n, axis=ax, **kw)
     else:
         fn = (lambda ns, x: ns.diff(x)) if True else None
         n, ax = 1, -1
@@ -617,7 +641,17 @@ def _t_sort(c):
 def _t_astype(c):
     s = c.shape(1, 3)
     dt = c.choice(["float64", "complex128"])
-    return Call("s:astype", lambda ns, x: x.astype(dt), [s], desc=["astype", list(s), dt], feats={"fn": "astype", "dtype": dt}, cplx=False)
+    k = c.int(0, 3)
+    if k == 0 and len(s) >= 2:
+        # followed by a read in memory order: the result of astype keeps the layout of its operand (order='K' is its default)
+        fn = lambda ns, x: ns.ravel(x.astype(dt), order="K")
+    elif k == 1:
+        fn = lambda ns, x: x.astype(dt, order="C")
+    elif k == 2 and len(s) >= 2:
+        fn = lambda ns, x: ns.ravel(x.astype(dt, "F"), order="A")
+    else:
+        fn = lambda ns, x: x.astype(dt)
+    return Call("s:astype", fn, [s], desc=["astype", list(s), dt, k], feats={"fn": "astype", "dtype": dt, "form": k}, cplx=False)
 
 
 @template("s:getitem", "shape", weight=2)
